@@ -145,11 +145,19 @@ func (w *world) stepEthCall(r *Rng) stepOut {
 	si := r.Intn(4)
 	from := w.senders[si].GetEthAddress()
 	gas := pickGas(r)
-	cs := w.desc("ethcall", "call", s.name, "sender", si, "gas", gas, "data", hex.EncodeToString(s.data))
-	req := w.ethCallReq(s, from, gas, defaultGasCap)
+	gasCap := []uint64{defaultGasCap, defaultGasCap, 0, 50_000_000}[r.Intn(4)]
+	if r.Chance(12) {
+		// a sender nobody holds the key of: an account that does not exist, or a contract
+		si = -1
+		from = []common.Address{w.nobody, {}, w.counter}[r.Intn(3)]
+	} else if r.Chance(6) {
+		gasCap = 50_000 // the node's cap below the requested gas: executed with the cap
+	}
+	cs := w.desc("ethcall", "call", s.name, "sender", si, "gas", gas, "gasCap", gasCap, "data", hex.EncodeToString(s.data))
+	req := w.ethCallReq(s, from, gas, gasCap)
 	var first callResult
 	a := w.twice(r, "EthCall", cs, func() answer {
-		res, a := w.ethCall(s, from, gas, defaultGasCap, 0)
+		res, a := w.ethCall(s, from, gas, gasCap, 0)
 		first = res
 		return a
 	})
@@ -171,7 +179,7 @@ func (w *world) stepEthCall(r *Rng) stepOut {
 		w.remember("EthCall", pathEvm+"EthCall", req, a)
 	}
 	predicted := false
-	if s.predictable && a.code == 0 && r.Chance(70) {
+	if s.predictable && a.code == 0 && si >= 0 && (gasCap == 0 || gasCap >= gas) && r.Chance(70) {
 		res, _ := w.deliverOne(s, si, gas)
 		if res.Code != 0 {
 			w.side.Count("deliver:rejected")
@@ -386,7 +394,18 @@ func (w *world) stepEstimate(r *Rng) stepOut {
 // ------------------------------------------------------------------ tracing
 
 func (w *world) genTraceConfig(r *Rng) *evmtypes.TraceConfig {
-	switch r.Intn(8) {
+	switch r.Intn(13) {
+	case 8:
+		// JavaScript tracer reading state through the tracer's db handle
+		return &evmtypes.TraceConfig{Tracer: `{n: 0, bal: "", step: function(log, db) { this.n++; if (this.n == 1) { this.bal = db.getBalance(log.contract.getAddress()).toString() + "/" + db.getNonce(log.contract.getCaller()) + "/" + db.exists(log.contract.getAddress()) } }, fault: function(log, db) {}, result: function(ctx, db) { return {steps: this.n, bal: this.bal, gasUsed: ctx.gasUsed} }}`}
+	case 9:
+		return &evmtypes.TraceConfig{Tracer: `{ops: [], step: function(log, db) { if (this.ops.length < 50) this.ops.push(log.op.toString() + ":" + log.getGas()) }, fault: function(log, db) { this.ops.push("fault") }, result: function(ctx, db) { return this.ops }}`, Timeout: "2s"}
+	case 10:
+		return &evmtypes.TraceConfig{Tracer: "noSuchTracer"}
+	case 11:
+		return &evmtypes.TraceConfig{Timeout: "not-a-duration"}
+	case 12:
+		return &evmtypes.TraceConfig{Limit: -1}
 	case 0:
 		return nil
 	case 1:
@@ -405,6 +424,11 @@ func (w *world) genTraceConfig(r *Rng) *evmtypes.TraceConfig {
 }
 
 func structLogger(cfg *evmtypes.TraceConfig) bool { return cfg == nil || cfg.Tracer == "" }
+
+// plainStruct: the default struct logger with a well-formed configuration (its result carries gas / failed / returnValue)
+func plainStruct(cfg *evmtypes.TraceConfig) bool {
+	return cfg == nil || (cfg.Tracer == "" && cfg.Timeout == "" && cfg.Limit >= 0)
+}
 
 func (w *world) traceTxReq(msg *evmtypes.MsgEthereumTx, preds []*evmtypes.MsgEthereumTx, cfg *evmtypes.TraceConfig, blockNumber int64) *evmtypes.QueryTraceTxRequest {
 	rq := &evmtypes.QueryTraceTxRequest{Msg: msg, Predecessors: preds, TraceConfig: cfg, BlockNumber: blockNumber,
@@ -441,6 +465,11 @@ func (w *world) stepTrace(r *Rng) stepOut {
 	tracer := "struct"
 	if !structLogger(cfg) {
 		tracer = cfg.Tracer
+		if len(tracer) > 14 {
+			tracer = "js:" + tracer[1:6]
+		}
+	} else if cfg != nil && (cfg.Timeout != "" || cfg.Limit < 0) {
+		tracer = "struct/bad-config"
 	}
 	cs := w.desc("tracetx", "call", s.name, "sender", si, "gas", gas, "tracer", tracer, "data", hex.EncodeToString(s.data))
 	bz, msg := w.signedTx(s, si, gas, 0)
@@ -456,7 +485,7 @@ func (w *world) stepTrace(r *Rng) stepOut {
 		w.remember("TraceTx", pathEvm+"TraceTx", req, a)
 	}
 	predicted := false
-	if s.predictable && a.code == 0 && structLogger(cfg) && r.Chance(70) {
+	if s.predictable && a.code == 0 && plainStruct(cfg) && r.Chance(70) {
 		var resp evmtypes.QueryTraceTxResponse
 		var tr structTrace
 		require.NoError(w.t, resp.Unmarshal(a.value))
@@ -483,14 +512,22 @@ func (w *world) stepReplay(r *Rng) stepOut {
 	var msgs []*evmtypes.MsgEthereumTx
 	var specs []callSpec
 	var names []string
+	shared := r.Chance(55)
+	if shared {
+		n = 2 + r.Intn(3)
+	}
 	for i, si := range perm4(r)[:n] {
 		s := w.genPredictable(r)
+		if shared {
+			s = w.sharedStateCall(r, i)
+		}
 		bz, msg := w.signedTx(s, si, 900_000, 0)
 		txs, msgs, specs = append(txs, bz), append(msgs, msg), append(specs, s)
 		names = append(names, s.name)
 		_ = i
 	}
-	cs := w.desc("replay", "calls", names)
+	cs := w.desc("replay", "calls", names, "sharedState", shared)
+	w.side.Count(fmt.Sprintf("replay:shared-state=%v", shared))
 	results := w.runBlock(txs, msgs, specs)
 	b := w.lastBlock
 	cfg := w.genTraceConfig(r)
@@ -501,7 +538,7 @@ func (w *world) stepReplay(r *Rng) stepOut {
 	ab := w.twice(r, "TraceBlock", cs, func() answer { return w.query(pathEvm+"TraceBlock", breq, b.height-1) })
 	w.side.Count(fmt.Sprintf("traceblock:code=%d", ab.code))
 	agree := 0
-	if ab.code == 0 && structLogger(cfg) {
+	if ab.code == 0 && plainStruct(cfg) {
 		var resp evmtypes.QueryTraceBlockResponse
 		require.NoError(w.t, resp.Unmarshal(ab.value))
 		var trs []struct {
